@@ -11,8 +11,9 @@
 //   * leave the session usable: `SELECT 41 + 1` still answers 42 afterwards.
 // The family runs in a CHILD PROCESS (this test binary re-invoked) that prints a progress line before each statement, so
 // that an abort of the process is attributed to the statement that caused it.
-// KNOWN-SHAPE: two statements that crash at the pinned commit (expression nesting deeper than ~150 levels: there is
-// no recursion limit in parser / binder / planner) run in children of their own and are tallied
+// KNOWN-SHAPE: three statements that crash at the pinned commit (expression nesting deeper than ~150 levels: there is
+// no recursion limit in parser / binder / planner; a CTE joined with itself trips an assertion of the join-reorder
+// optimizer) run in children of their own and are tallied
 // (see known_findings.json); a crash on any other statement is a violation.
 use std::io::BufRead;
 use std::time::Duration;
@@ -260,6 +261,7 @@ fn known_crashers() -> Vec<(&'static str, String)> {
     vec![
         ("a sum of 400 terms (expression nesting deeper than ~150 levels)", format!("SELECT {}", vec!["1"; 400].join(" + "))),
         ("20 000 nested parentheses", format!("SELECT {}1{}", "(".repeat(20_000), ")".repeat(20_000))),
+        ("self-join of a CTE (join reorder assertion)", "WITH c AS (SELECT x FROM generate_series(1, 10) g(x)) SELECT count(*) FROM c a JOIN c b ON a.x + 1 = b.x".to_string()),
     ]
 }
 
@@ -371,7 +373,7 @@ fn c15_engine__statement_family_result_or_error_session_survives__nat() {
                 }
             }
             if !known.is_empty() {
-                panic!("KNOWN-SHAPE deeply nested expressions kill the process (no recursion limit): {} of 2: {}", known.len(), known.join(" || "));
+                panic!("KNOWN-SHAPE statements that kill the process (no recursion limit; join reorder on a CTE self-join): {} of 3: {}", known.len(), known.join(" || "));
             }
         }
     }
@@ -626,5 +628,132 @@ fn c07_engine__aggregate_queries_match_their_definition__nat() {
                 panic!("KNOWN-SHAPE grouping-set queries that differ from the definition: {} : {}", known.len(), known.join(" || "));
             }
         }
+    }
+}
+
+
+// C03 / C05 / C06 / C08 / C12 (bounded stand-in, native; NOT a proof): about 45 queries with results written by hand from
+// the SQL definition (three-valued logic, operator precedence, comparison and arithmetic semantics incl. truncating integer
+// division and exact decimal arithmetic, ORDER BY with NULLS FIRST / LAST and mixed directions, LIMIT / OFFSET, inner /
+// outer / semi / anti joins, grouped and DISTINCT aggregates, set operations) run through the whole engine under EVERY
+// combination of partitions {1, 4}, batch_size {default, 64} and enable_hash_joins {true, false}: each must return its
+// expected rows (as a multiset unless the query has an ORDER BY) in all 8 settings.
+fn query_script() -> Vec<(&'static str, bool, &'static [&'static str])> {
+    // (query, ordered, expected rows)
+    vec![
+        ("SELECT 'a' < 'b', 'abc' < 'abd', 'a' = 'a ', DATE '2020-01-02' > DATE '2020-01-01', 1.50 = 1.5, 1.5 < 1.50001", true, &["true|true|false|true|true|true"]),
+        ("SELECT 2 BETWEEN 1 AND 3, 2 BETWEEN 3 AND 1, NULL BETWEEN 1 AND 3, 1 IN (1, NULL), 2 IN (1, NULL), 2 NOT IN (1, NULL)", true, &["true|false|NULL|true|NULL|NULL"]),
+        ("SELECT CASE WHEN NULL THEN 1 ELSE 2 END, CASE WHEN false THEN 1 END, CASE 2 WHEN 1 THEN 'a' WHEN 2 THEN 'b' END", true, &["2|NULL|b"]),
+        ("SELECT abs(-5), -7 % 3, 7 % -3, -7 / 2, 7 / 2, 7 / -2", true, &["5|-1|1|-3|3|-3"]),
+        ("SELECT NOT true AND false, NOT (true AND false), 1 + 2 * 3, (1 + 2) * 3, -2 * 3, 2 - 3 - 4, 2 * 3 % 4", true, &["false|true|7|9|-6|-5|2"]),
+        ("SELECT true OR NULL, false AND NULL, NULL OR false, NOT NULL, NULL = NULL, NULL IS NULL, 1 IS NOT NULL", true, &["true|false|NULL|NULL|NULL|true|true"]),
+        ("SELECT 1 = 1.0, 2 > 1.5, 3 < 2.5, 10 = '10'::INT, 1.5::DOUBLE > 1, -1 < 0::BIGINT", true, &["true|true|false|true|true|true"]),
+        ("SELECT 1.5 + 2.25 = 3.75, 1.5 * 2.25 = 3.375, 10.0 - 0.01 = 9.99, 1.10 + 2 = 3.1, 0.1 + 0.2 = 0.3", true, &["true|true|true|true|true"]),
+        ("SELECT (1.5 + 2.25)::TEXT, (1.5 * 2.5)::TEXT, (10.0 - 0.01)::TEXT", true, &["3.75|3.75|9.99"]),
+        ("SELECT 9223372036854775806 + 1, -9223372036854775807 - 1, 3037000499 * 3037000499, 127::TINYINT::BIGINT", true, &["9223372036854775807|-9223372036854775808|9223372030926249001|127"]),
+        ("SELECT sum(x) = 4.0, avg(x) = 2.0, min(x) = 1.5, max(x) = 2.5, count(x) FROM (VALUES (1.5), (2.5)) t(x)", true, &["true|true|true|true|2"]),
+        ("SELECT a FROM (VALUES (3), (1), (NULL), (2)) t(a) ORDER BY a ASC NULLS FIRST", true, &["NULL", "1", "2", "3"]),
+        ("SELECT a FROM (VALUES (3), (1), (NULL), (2)) t(a) ORDER BY a DESC NULLS LAST", true, &["3", "2", "1", "NULL"]),
+        ("SELECT a FROM (VALUES (3), (1), (NULL), (2)) t(a) ORDER BY a DESC NULLS FIRST", true, &["NULL", "3", "2", "1"]),
+        ("SELECT a, b FROM (VALUES (1, 'x'), (1, 'a'), (0, 'z'), (2, NULL)) t(a, b) ORDER BY a DESC, b ASC NULLS FIRST", true, &["2|NULL", "1|a", "1|x", "0|z"]),
+        ("SELECT s FROM (VALUES ('prefix-prefix-prefix-b'), ('prefix-prefix-prefix-a'), ('prefix-prefix-prefix'), ('prefix')) t(s) ORDER BY s DESC", true, &["prefix-prefix-prefix-b", "prefix-prefix-prefix-a", "prefix-prefix-prefix", "prefix"]),
+        ("SELECT x FROM (VALUES (1.5::DOUBLE), (-0.5::DOUBLE), (100::DOUBLE), (-100.25::DOUBLE)) t(x) ORDER BY x", true, &["-100.25", "-0.5", "1.5", "100"]),
+        ("SELECT a FROM generate_series(1, 100) g(a) ORDER BY a DESC LIMIT 3 OFFSET 2", true, &["98", "97", "96"]),
+        ("SELECT a FROM generate_series(1, 100) g(a) ORDER BY a LIMIT 0", true, &[]),
+        ("SELECT a FROM generate_series(1, 100) g(a) ORDER BY a LIMIT 5 OFFSET 98", true, &["99", "100"]),
+        ("SELECT a FROM generate_series(1, 100) g(a) ORDER BY a LIMIT 10 OFFSET 200", true, &[]),
+        ("SELECT count(*) FROM (SELECT a FROM generate_series(1, 5000) g(a) LIMIT 1234 OFFSET 100) s", true, &["1234"]),
+        ("SELECT a FROM generate_series(1, 5000) g(a) ORDER BY a % 7, a DESC LIMIT 4", true, &["4998", "4991", "4984", "4977"]),
+        ("SELECT a % 3, a FROM generate_series(1, 7) g(a) ORDER BY 1 DESC, 2", true, &["2|2", "2|5", "1|1", "1|4", "1|7", "0|3", "0|6"]),
+        ("SELECT count(*), sum(a.x * b.y) FROM generate_series(1, 300) a(x) JOIN generate_series(1, 300) b(y) ON a.x = b.y", true, &["300|9045050"]),
+        ("SELECT count(*) FROM generate_series(1, 50) a(x) LEFT JOIN generate_series(1, 25) b(y) ON a.x = b.y WHERE b.y IS NULL", true, &["25"]),
+        ("SELECT count(*), count(b.y) FROM generate_series(1, 50) a(x) LEFT JOIN generate_series(1, 25) b(y) ON a.x = b.y", true, &["50|25"]),
+        ("SELECT count(*), count(a.x), count(b.y) FROM generate_series(1, 10) a(x) RIGHT JOIN generate_series(6, 20) b(y) ON a.x = b.y", true, &["15|5|15"]),
+        ("SELECT count(*) FROM generate_series(1, 40) a(x), generate_series(1, 40) b(y) WHERE a.x < b.y", true, &["780"]),
+        ("SELECT count(*) FROM generate_series(1, 40) a(x) JOIN generate_series(1, 40) b(y) ON a.x = b.y AND a.x + b.y > 40", true, &["20"]),
+        ("SELECT count(*) FROM generate_series(1, 30) a(x) JOIN generate_series(1, 30) b(y) ON a.x % 5 = b.y % 5 AND a.x < b.y", true, &["75"]),
+        ("SELECT count(*) FROM generate_series(1, 100) a(x) WHERE x IN (SELECT y * 2 FROM generate_series(1, 30) b(y))", true, &["30"]),
+        ("SELECT count(*) FROM generate_series(1, 100) a(x) WHERE x NOT IN (SELECT y * 2 FROM generate_series(1, 30) b(y))", true, &["70"]),
+        ("SELECT count(*) FROM generate_series(1, 100) a(x) WHERE EXISTS (SELECT 1 FROM generate_series(1, 30) b(y) WHERE b.y * 3 = a.x)", true, &["30"]),
+        ("SELECT count(*) FROM generate_series(1, 100) a(x) WHERE NOT EXISTS (SELECT 1 FROM generate_series(1, 30) b(y) WHERE b.y * 3 = a.x)", true, &["70"]),
+        ("SELECT x % 10 AS k, count(*), sum(x) FROM generate_series(1, 1000) g(x) GROUP BY x % 10 ORDER BY k", true, &["0|100|50500", "1|100|49600", "2|100|49700", "3|100|49800", "4|100|49900", "5|100|50000", "6|100|50100", "7|100|50200", "8|100|50300", "9|100|50400"]),
+        ("SELECT count(DISTINCT x % 13), count(*), min(x), max(x), sum(x) FROM generate_series(1, 1000) g(x)", true, &["13|1000|1|1000|500500"]),
+        ("SELECT DISTINCT x % 4 FROM generate_series(1, 1000) g(x)", false, &["0", "1", "2", "3"]),
+        ("SELECT x FROM generate_series(1, 3) g(x) UNION ALL SELECT x FROM generate_series(2, 4) g(x)", false, &["1", "2", "2", "3", "3", "4"]),
+        ("SELECT x FROM generate_series(1, 3) g(x) UNION SELECT x FROM generate_series(2, 4) g(x)", false, &["1", "2", "3", "4"]),
+        ("SELECT count(*) FROM (SELECT x FROM generate_series(1, 3000) g(x) UNION ALL SELECT x FROM generate_series(1, 2000) g(x)) u WHERE x % 2 = 0", true, &["2500"]),
+        ("SELECT k, count(*) FROM (SELECT x % 3 AS k FROM generate_series(1, 10) g(x) WHERE x > 4) s GROUP BY k HAVING count(*) > 1 ORDER BY k", true, &["0|2", "1|2", "2|2"]),
+        ("SELECT sum(c) FROM (SELECT count(*) AS c FROM generate_series(1, 2000) g(x) GROUP BY x % 97) s", true, &["2000"]),
+        ("SELECT count(*), sum(c), min(k), max(k) FROM (SELECT x % 1300 AS k, count(*) AS c FROM generate_series(1, 5200) g(x) GROUP BY x % 1300) s", true, &["1300|5200|0|1299"]),
+        ("SELECT count(*), sum(k) FROM (SELECT DISTINCT x % 777 AS k FROM generate_series(1, 3000) g(x)) s", true, &["777|301476"]),
+        ("SELECT count(DISTINCT x % 1111), count(*) FROM generate_series(1, 4000) g(x)", true, &["1111|4000"]),
+        ("SELECT count(*), min(x), max(x), sum(x) FROM generate_series(129, 1, -1) g(x)", true, &["129|1|129|8385"]),
+        ("SELECT count(*), min(x), max(x) FROM generate_series(8193, 1, -1) g(x)", true, &["8193|1|8193"]),
+        ("SELECT count(*), min(x), max(x) FROM generate_series(1, 257, 2) g(x)", true, &["129|1|257"]),
+        ("SELECT x FROM generate_series(5, 5, -1) g(x)", true, &["5"]),
+        ("SELECT CAST(0.3 AS DOUBLE)::TEXT, CAST(0.7 AS DOUBLE)::TEXT, CAST(4.35 AS DOUBLE)::TEXT, CAST(12345678.9 AS DOUBLE)::TEXT, (0.3 / 1.0)::TEXT", true, &["0.3|0.7|4.35|12345678.9|0.3"]),
+        ("SELECT (1.000::DECIMAL(18,3) - 0.5::DECIMAL(10,1))::TEXT, (1.000::DECIMAL(18,3) + 0.5::DECIMAL(10,1))::TEXT, (2.5::DECIMAL(38,1) - 1::INT)::TEXT, (1.25 - 0.5)::TEXT", true, &["0.500|1.500|1.5|0.75"]),
+        ("SELECT -2 ^ 2, 3 * -2 ^ 2, 2 ^ 3 ^ 2, - 2 * 3, 10 - -3", true, &["4|12|64|-6|13"]),
+        ("SELECT round(-2.5::DOUBLE), round(-0.5::DOUBLE), round(2.5::DOUBLE), round(0.49999999999999994::DOUBLE), round(-1.4::DOUBLE), round(4503599627370497::DOUBLE)::BIGINT", true, &["-3|-1|3|0|-1|4503599627370497"]),
+        ("SELECT a FROM (VALUES (3), (-5), (NULL), (0), (-1)) t(a) ORDER BY a DESC NULLS LAST", true, &["3", "0", "-1", "-5", "NULL"]),
+        ("SELECT a FROM (VALUES (3), (-5), (NULL), (0), (-1)) t(a) ORDER BY a DESC NULLS FIRST", true, &["NULL", "3", "0", "-1", "-5"]),
+        ("SELECT a, b FROM (VALUES (1.5::DOUBLE, 2), (NULL, 1), (-2.5::DOUBLE, NULL), (1.5::DOUBLE, NULL)) t(a, b) ORDER BY a DESC NULLS LAST, b DESC NULLS FIRST", true, &["1.5|NULL", "1.5|2", "-2.5|NULL", "NULL|1"]),
+    ]
+}
+
+fn query_child() {
+    let rt = new_tokio_runtime_for_io().unwrap();
+    let engine: Engine = SingleUserEngine::try_new(ThreadedNativeExecutor::try_new_with_num_threads(2).unwrap(), NativeSystemRuntime::new(rt.handle().clone())).unwrap();
+    let default_batch = run(&rt, &engine, "SHOW batch_size").unwrap().join("");
+    let mut n = 0usize;
+    for partitions in [1usize, 4] {
+        for batch in [default_batch.as_str(), "64"] {
+            for hash_joins in [true, false] {
+                run(&rt, &engine, &format!("SET partitions TO {partitions}")).unwrap();
+                run(&rt, &engine, &format!("SET batch_size TO {batch}")).unwrap();
+                run(&rt, &engine, &format!("SET enable_hash_joins TO {hash_joins}")).unwrap();
+                for (i, (sql, ordered, want)) in query_script().iter().enumerate() {
+                    println!("VERIF-PROGRESS {i} {sql}");
+                    let setting = format!("partitions = {partitions}, batch_size = {batch}, enable_hash_joins = {hash_joins}");
+                    match run(&rt, &engine, sql) {
+                        Ok(mut got) => {
+                            let mut w: Vec<String> = want.iter().map(|s| s.to_string()).collect();
+                            if !*ordered {
+                                got.sort();
+                                w.sort();
+                            }
+                            if got != w {
+                                println!("VERIF-FAIL query `{sql}` ({setting}) returned {got:?}, by its definition the result is {w:?}");
+                                std::process::exit(3);
+                            }
+                        }
+                        Err(e) => {
+                            println!("VERIF-FAIL query `{sql}` ({setting}) failed: {}", e.to_string().lines().next().unwrap_or(""));
+                            std::process::exit(3);
+                        }
+                    }
+                    println!("VERIF-RESULT {n} ok");
+                    n += 1;
+                }
+            }
+        }
+    }
+    println!("VERIF-DONE");
+}
+
+#[test]
+fn c03c05c06c08c12_engine__query_results_match_definition_in_every_setting__nat() {
+    const NAME: &str = "verif_kani::c03c05c06c08c12_engine__query_results_match_definition_in_every_setting__nat";
+    match std::env::var("VERIF_ENGINE_GROUP").ok() {
+        Some(_) => {
+            let t = std::thread::Builder::new().stack_size(8 << 20).spawn(query_child).unwrap();
+            if t.join().is_err() {
+                std::process::exit(4);
+            }
+        }
+        None => match run_child(NAME, "queries") {
+            Ok(oks) => assert!(oks == 8 * query_script().len(), "only {oks} query runs completed"),
+            Err(e) => panic!("{e}"),
+        },
     }
 }
